@@ -216,6 +216,19 @@ func (e *c19Env) outPath(name string) string {
 
 func (e *c19Env) write(name string, b []byte) string {
 	p := e.path(name)
+	os.Remove(p)
+	if strings.HasPrefix(name, "in") && e.r.Intn(4) == 0 {
+		// the source is named through a symbolic link (a "current" alias, a mounted layout)
+		real := e.path("real-" + name)
+		if err := os.WriteFile(real, b, 0o644); err != nil {
+			panic(err)
+		}
+		if err := os.Symlink(filepath.Base(real), p); err != nil {
+			panic(err)
+		}
+		e.t.Cover("variant:source-path-is-a-symlink")
+		return p
+	}
 	if err := os.WriteFile(p, b, 0o644); err != nil {
 		panic(err)
 	}
